@@ -87,7 +87,11 @@ def gen_scenario(rng, cfg, thorough):
             ack = kind == 'call' or rng.random() < 0.5
             ops.append({'dir': direction, 'kind': kind, 'event': ev, 'data': gen_payload(rng, ser),
                         'ns': rng.choice(nss), 'ack': ack, 'ret': gen_payload(rng, ser),
-                        'batch': kind != 'call' and rng.random() < 0.4})
+                        'batch': rng.random() < 0.4})
+            # hold: the frames stay queued after the API call returns and travel together with the
+            # following messages of the same direction (several messages back to back in one payload)
+            ops[-1]['hold'] = kind != 'call' and rng.random() < 0.3
+            ops[-1]['first'] = rng.choice(['c2s', 's2c'])       # which queue the pump serves first
     rng.shuffle(ops)
     return {'cfg': list(cfg), 'namespaces': nss, 'ops': ops, 'async_handlers': async_handlers,
             'coro': rng.random() < 0.5, 'catchall': rng.random() < 0.25}
@@ -137,7 +141,8 @@ async def _run(sc):
         lb.rx[d].clear()
     for k, op in enumerate(sc['ops']):
         d = op['dir']
-        lb.immediate = not op['batch']
+        lb.batch = op['batch']
+        lb.first = op.get('first', 'c2s')
         rec = {'cb': None, 'api': None}
         results.append(rec)
 
@@ -161,17 +166,31 @@ async def _run(sc):
         if op['ack'] and op['kind'] != 'call':
             kw['callback'] = cb
 
-        # the ack id is drawn inside emit / call; with immediate delivery the peer's handler
-        # runs before emit returns, so the id is published the moment it exists
+        # the ack id is drawn inside emit / call; call() pumps the loop while it waits, so the
+        # peer's handler runs before call() returns: the id is published the moment it exists
         def hook(i, _op=op, _m=m):
             _op['id'] = i
             _m[4] = i
         lb.id_hook[d] = hook
         try:
-            rec['api'] = await lb.api(fn, *args, **kw)
+            rec['api'] = await lb.api(fn, *args, _flush=not op.get('hold'), **kw)
         finally:
             lb.id_hook[d] = None
+    await lb.api(lambda: None)
+    # With async_handlers=True the server runs each event handler in a task (thread) of its own,
+    # by design concurrently with whatever the receive loop does next: an ACK that FOLLOWS an EVENT on
+    # the wire reaches its callback before the EVENT's handler has started.  "Handled in the order
+    # sent" is then the order in which the receive loop dispatched the packets: the observations
+    # carry that dispatch number and are put in that order (the fact is counted and reported).
+    invoked = {d: [e[:-1] for e in lb.rx[d]] for d in lb.rx}
+    reordered = False
+    if sc['async_handlers']:
+        by_dispatch = sorted(lb.rx['c2s'], key=lambda e: (e[-1] is None, e[-1] or 0))
+        reordered = by_dispatch != lb.rx['c2s']
+        lb.rx['c2s'] = by_dispatch
+    lb.rx = {d: [e[:-1] for e in lb.rx[d]] for d in lb.rx}
     out = {'sent': sent, 'wire': lb.wire, 'jtab': lb.jtab, 'rx': lb.rx, 'escaped': lb.escaped,
+           'invoked': invoked, 'reordered': reordered,
            'results': results, 'unhandled': {d: len(pending[d]) for d in pending}}
     return out
 
@@ -307,17 +326,17 @@ def cases_of(sc, out):
 def single_op_scenarios(sc):
     for op in sc['ops']:
         s = dict(sc)
-        s['ops'] = [dict(op, batch=False)]
+        s['ops'] = [dict(op, batch=False, hold=False)]
         yield s
 
 
 # --------------------------------------------------------------------------- run
 def run(chk):
     rng = chk.rng
-    n_sc = 40 if chk.thorough else 7
+    n_sc = 150 if chk.thorough else 18
     chk.rule = ('8 configurations {Client+Server, AsyncClient+AsyncServer} x {default, msgpack} x {b64 on, off}; '
                 'per scenario 1-2 namespaces and up to N<=6 (quick) / N<=20 (thorough) operations per direction '
-                '(emit / send / call, with and without ack, immediate or batched delivery, specific or catch-all '
+                '(emit / send / call, with and without ack, one packet per payload or batched, held back or not, specific or catch-all '
                 'handlers, plain or coroutine handlers, async_handlers on/off); payloads and handler return '
                 'values: None, (), tuples of 1-4, single values, JSON trees of depth<=4 with bytes leaves, '
                 'floats, 64-bit ints, non-BMP text.  A message is non-trivial when its payload has depth>=2 or '
@@ -366,6 +385,8 @@ def run(chk):
                 chk.dist('config ' + label)
             if out['escaped']:
                 chk.dist('escaped exception')
+            if out['reordered']:
+                chk.dist('async_handlers=True: a handler task started after the callback of a later ACK (%s)' % cfg[0])
     codes, errors = coqio.eval_cases('c02', IMPORTS, '', 'c02case', cases, 'c02_eval', shard=40)
     chk.traces_validated = len(cases)
     for e in errors:
